@@ -231,6 +231,30 @@ def check_versions(tp, data, label, type_repr, source, shape, deser_only, st):
                     break
 
 
+def check_both_sides(tp, label, type_repr, source, shape, st):
+    """definitions shared by deserialization and serialization (merged, with readOnly / writeOnly copies of the
+    one-sided properties) must be in the requested dialect at every level too"""
+    for vname, version in VERSIONS.items():
+        try:
+            both = json.loads(json.dumps(definitions_schema(deserialization=[tp], serialization=[tp], version=version, all_refs=True)))
+        except TypeError as e:
+            if "different schemas" in str(e):
+                continue
+            st.violation({"label": label, "type": type_repr, "options": ["both", vname], "signature": {"kind": "conversion_exception", "exc": "TypeError", "version": vname, "side": "both"}, "what": f"definitions_schema(both, version={vname}) raised {e!r}"[:300], "source": source})
+            continue
+        except Exception:
+            continue  # C17 reports it
+        st.case(shape, vname, "both", tuple(sorted(both)))
+        probs = []
+        for dname, dschema in both.items():
+            probs += [f"definitions[{dname}]: " + p for p in vocabulary_problems(dschema, vname)]
+        if probs:
+            import re as _re
+
+            kw = sorted({_re.sub(r"^definitions\[\w+\]: ", "", p.split(" at ")[0]) for p in probs})
+            st.violation({"label": label, "type": type_repr, "options": ["both", vname], "signature": {"kind": "vocabulary", "version": vname, "what": kw[:3], "side": "both"}, "what": f"definitions_schema(deserialization + serialization) uses vocabulary outside {vname}: {probs[:3]}"[:400], "schema": json.dumps(both)[:1200], "source": source})
+
+
 def run_type(i, label, spec, tier, st):
     env = dc.build_env(spec)
     ctx0 = Ctx(env=env)
@@ -248,6 +272,8 @@ def run_type(i, label, spec, tier, st):
         st.sample({"type": short(spec), "label": label})
     data = [d for _, d in enumerate_data(spec, ctx0, k=1, wide=lvl <= 1)]
     check_versions(rz.tp, data, label, short(spec), rz.source, dc.shape_of(label), lvl > 1 and tier == "quick", st)
+    if lvl <= 1 or tier == "thorough":
+        check_both_sides(rz.tp, label, short(spec), rz.source, dc.shape_of(label), st)
     case.drop()
     dc.periodic_reset(i)
 
@@ -317,6 +343,7 @@ def run_worlds(st):
     try:
         for name, tp, data in targets:
             check_versions(tp, data, "world:" + name, name, WORLD_SRC, "world:" + name, False, st)
+            check_both_sides(tp, "world:" + name, name, WORLD_SRC, "world:" + name, st)
         # the conversion to a version is itself a serialization: global serialization settings must not leak into it
         from apischema import PassThroughOptions, settings
 
